@@ -95,6 +95,10 @@ class Parser:
             return ("let", name, ty, e)
         if v == "if":
             return ("expr", self.if_())
+        if v == "while":
+            self.next()
+            c = self.expr(no_struct=True)
+            return ("while", c, self.block())
         if v == "return":
             self.next()
             e = self.expr()
@@ -167,8 +171,16 @@ class Parser:
                 else:
                     e = ("field", e, name)
             elif self.accept("["):
-                i = self.expr(); self.expect("]")
-                e = ("index", e, i)
+                if self.accept(".."):
+                    hi = None if self.peek()[1] == "]" else self.expr()
+                    self.expect("]"); e = ("slice", e, None, hi)
+                else:
+                    i = self.expr()
+                    if self.accept(".."):
+                        hi = None if self.peek()[1] == "]" else self.expr()
+                        self.expect("]"); e = ("slice", e, i, hi)
+                    else:
+                        self.expect("]"); e = ("index", e, i)
             else:
                 return e
 
@@ -204,6 +216,8 @@ class Gen:
         self.consts = consts            # RUST_CONST -> (gallina term, type)
         self.helpers = helpers or {}    # method name -> (params, expr AST) single-expression helpers of the same impl
         self.n = 0
+        self.uses_fuel = False
+        self.usize_vars = set()         # un-annotated integer variables that Rust infers as usize (used as an index / against .len())
     def fresh(self, base="t"):
         self.n += 1; return "%s%d" % (base, self.n)
 
@@ -249,16 +263,37 @@ class Gen:
                     return "match nth_error %s (N.to_nat %s) with None => None | Some %s =>\n  %s end" % (a, i, v, k(v, ta[1]))
                 return self.expr(e[2], ki, "usize")
             return self.expr(e[1], ka)
+        if kind == "slice":
+            def ka(a, ta):
+                if not (isinstance(ta, tuple) and ta[0] == "arr"): raise Untranslatable("slicing a non-array")
+                lo, hi = e[2], e[3]
+                if lo is None and hi is None: return k(a, ta)
+                def with_lo(l):
+                    def with_hi(h):
+                        if h is None:
+                            return "if N.of_nat (length %s) <? %s then None else\n  %s" % (a, l, k("(skipn (N.to_nat %s) %s)" % (l, a), ta))
+                        return "if N.of_nat (length %s) <? %s then None else if %s <? %s then None else\n  %s" % (a, h, h, l, k("(firstn (N.to_nat (%s - %s)) (skipn (N.to_nat %s) %s))" % (h, l, l, a), ta))
+                    if hi is None: return with_hi(None)
+                    return self.expr(hi, lambda h, th: with_hi(h), "usize")
+                if lo is None: return with_lo("0")
+                return self.expr(lo, lambda l, tl: with_lo(l), "usize")
+            return self.expr(e[1], ka)
         if kind == "bin":
             op = e[1]
+            if op in ("&&", "||"):
+                # short circuit: the right operand (and its panics) is evaluated only when needed
+                def ks(a, ta):
+                    if ta != "bool": raise Untranslatable("%s on non-boolean" % op)
+                    right = self.expr(e[3], k)
+                    if op == "&&": return "if %s then (\n  %s\n  ) else (\n  %s\n  )" % (a, right, k("false", "bool"))
+                    return "if %s then (\n  %s\n  ) else (\n  %s\n  )" % (a, k("true", "bool"), right)
+                return self.expr(e[2], ks)
             def kl(a, ta):
                 def kr(b, tb):
                     if op in ("==", "!=", "<", ">", "<=", ">="):
                         self.unify(ta, tb, op)
                         term = {"==": "(%s =? %s)", "!=": "(negb (%s =? %s))", "<": "(%s <? %s)", ">": "(%s <? %s)", "<=": "(%s <=? %s)", ">=": "(%s <=? %s)"}[op]
                         return k(term % ((b, a) if op in (">", ">=") else (a, b)), "bool")
-                    if op in ("&&", "||"):
-                        return k("(%s %s %s)" % (a, op, b), "bool")
                     t = self.unify(ta, tb, op)
                     if t is None: raise Untranslatable("untyped operands of %s" % op)
                     if t == "bool": raise Untranslatable("%s on bool" % op)
@@ -296,6 +331,11 @@ class Gen:
                         return k("((%s * %s) mod %d)" % (a, b, m), t)
                     return self.expr(args[0], kb, ta)
                 return self.expr(recv, ka, want)
+            if name == "len" and not args:
+                def kn_(a, ta):
+                    if not (isinstance(ta, tuple) and ta[0] == "arr"): raise Untranslatable(".len() of a non-array")
+                    return k("(N.of_nat (length %s))" % a, "usize")
+                return self.expr(recv, kn_)
             if name == "into" and not args:
                 # only used for widening u8 -> usize in this crate
                 def ki(a, ta):
@@ -334,9 +374,41 @@ class Gen:
         if not ss:
             return final(None)
         s, rest = ss[0], ss[1:]
+        if s[0] == "while":
+            cond, body = s[1], s[2]
+            assigned = []
+            def walk(ss_):
+                for x in ss_:
+                    if x[0] == "assign":
+                        key = self.lhs_key(x[1] if x[1][0] != "index" else x[1][1])
+                        if key in self.env and key not in assigned: assigned.append(key)
+                    elif x[0] == "expr" and x[1][0] == "if":
+                        walk(x[1][2]); walk(x[1][3] or [])
+                    elif x[0] == "tail" and x[1][0] == "if":
+                        walk(x[1][2]); walk(x[1][3] or [])
+                    elif x[0] == "while": walk(x[2])
+                    elif x[0] == "expr_stmt" and x[1][0] == "call" and x[1][2] == "swap":
+                        key = self.lhs_key(x[1][1])
+                        if key in self.env and key not in assigned: assigned.append(key)
+            walk(body)
+            if not assigned: raise Untranslatable("while loop that assigns nothing")
+            order = [k_ for k_ in self.env if k_ in assigned]
+            def tup(): return "(" + ", ".join(self.env[k_][0] for k_ in order) + ")" if len(order) > 1 else self.env[order[0]][0]
+            pat = tup()
+            self.uses_fuel = True
+            saved = dict(self.env)
+            c = self.expr(cond, lambda t, tt: "Some %s" % t)
+            self.env = dict(saved)
+            b = self.stmts(list(body), lambda tail: "Some %s" % tup())
+            self.env = dict(saved)
+            binder = "fun '%s" % pat if len(order) > 1 else "fun %s" % pat
+            return "match while_loop fuel (%s =>\n  %s) (%s =>\n  %s) %s with None => None | Some %s =>\n  %s end" % (
+                binder, c, binder, b, pat, ("'" + pat) if len(order) > 1 else pat, self.stmts(rest, final))
         if s[0] == "let":
             name, ty, e = s[1], s[2], s[3]
             want = ty if ty in BITS else None
+            if want is None and e[0] == "num" and e[2] is None and name in getattr(self, "usize_vars", ()):
+                want = "usize"
             def k(t, tt):
                 g = "v_" + name
                 self.env[name] = (g, ty if ty in BITS else tt)
@@ -400,6 +472,38 @@ class Gen:
             return "if %s then (\n  %s\n  ) else (\n  %s\n  )" % (ct, a, b)
         return self.expr(c, kc)
 
+
+def usize_variables(stmts):
+    """un-annotated variables that occur inside an index / slice bound or are compared with a .len()"""
+    found = set()
+    def ids(e, acc):
+        if not isinstance(e, tuple): return
+        if e[0] == "id": acc.add(e[1])
+        for x in e[1:]:
+            if isinstance(x, tuple): ids(x, acc)
+            elif isinstance(x, list):
+                for y in x: ids(y, acc) if isinstance(y, tuple) else None
+    def expr(e):
+        if not isinstance(e, tuple): return
+        if e[0] == "index": ids(e[2], found)
+        if e[0] == "slice":
+            for b in (e[2], e[3]):
+                if b is not None: ids(b, found)
+        if e[0] == "bin" and e[1] in ("<", ">", "<=", ">=", "==", "!="):
+            for a, b in ((e[2], e[3]), (e[3], e[2])):
+                if b[0] == "call" and b[2] == "len": ids(a, found)
+        for x in e[1:]:
+            if isinstance(x, tuple): expr(x)
+            elif isinstance(x, list):
+                for y in x:
+                    if isinstance(y, tuple): expr(y)
+    def walk(ss):
+        for s in ss:
+            for x in s[1:]:
+                if isinstance(x, tuple): expr(x)
+                elif isinstance(x, list): walk([y for y in x if isinstance(y, tuple)])
+    walk(stmts)
+    return found
 
 # -------------------------------------------------------------------------------------- front end
 def strip_comments(s):
